@@ -65,10 +65,12 @@ def load_known():
 
 def generate(qualnames, lambda_mode):
     """-> (per_fn dict, engine)"""
-    models.LAMBDA_MODE[0] = lambda_mode
     eng = Engine(Repo())
     per = {}
     for q in qualnames:
+        # a contract may state which array encoding its obligations are known to discharge in
+        pref = S.CONTRACTS[q].ghost.get('mode') == 'lambda'
+        models.LAMBDA_MODE[0] = (not pref) if lambda_mode else pref
         try:
             r = verify_function(eng, q)
             for n, ob in enumerate(r['obligations']):
@@ -90,7 +92,7 @@ def run_property(pid, tier, seed, out=sys.stdout):
     contracts.load_all()
     import lemmas as LM
     LM.load_all()
-    timeout_s = 10 if tier == 'quick' else 60
+    timeout_s = 30 if tier == 'quick' else 120
     native_n = 150 if tier == 'quick' else 2000
     fucs = [q for q, c in S.CONTRACTS.items() if pid in c.props and not c.trusted]
     trusted = [q for q, c in S.CONTRACTS.items() if pid in c.props and c.trusted]
